@@ -262,7 +262,19 @@ func (g *G) raceRun(seed uint64) {
 	os.MkdirAll(g.s.Dir, 0o755)
 	bin := filepath.Join(g.s.Dir, "c16race")
 	env := append(os.Environ(), "GOFLAGS=-mod=mod", "GOPROXY=off", "GOSUMDB=off", "GOTOOLCHAIN=local", "CGO_ENABLED=1")
-	build := exec.Command("go", "build", "-race", "-tags", "verif", "-o", bin, "./cmd/c16")
+	args := []string{"build", "-race", "-tags", "verif", "-o", bin}
+	if repo := os.Getenv("VERIF_REPO"); repo != "" && repo != "/repo" {
+		// the check was pointed at another checkout: same alternative module file as the driver uses
+		mod, err := os.ReadFile("go.mod")
+		sum, err2 := os.ReadFile(filepath.Join(repo, "go.sum"))
+		if err == nil && err2 == nil {
+			mf := filepath.Join(g.s.Dir, "race.mod")
+			os.WriteFile(mf, []byte(strings.Replace(string(mod), "=> /repo", "=> "+repo, 1)), 0o644)
+			os.WriteFile(filepath.Join(g.s.Dir, "race.sum"), sum, 0o644)
+			args = append(args, "-modfile="+mf)
+		}
+	}
+	build := exec.Command("go", append(args, "./cmd/c16")...)
 	build.Env = env
 	if out, err := build.CombinedOutput(); err != nil {
 		note("NOT RUN: go build -race failed: " + strings.TrimSpace(string(out)))
